@@ -13,7 +13,7 @@ LEVEL = 'exploration'
 BUDGET = {'quick': 1500, 'thorough': 6000}
 RULE = ('Hypothesis-generated histories: 1-3 Transform2D and 1-3 Transform3D instances built with default or '
         'generated constructor arguments, 1-4 listeners each subscribed to a generated subset of the three '
-        'change events on a generated subset of the transforms, then assignments (also augmented +=) to '
+        'change events (callbacks named like the event or renamed) on a generated subset of the transforms, then listeners subscribing / unsubscribing in between and assignments (also augmented +=) to '
         'position / rotation / scale with 2D rotations concentrated outside [0, 360) (negative, > 360, exact '
         'multiples of 360, tiny, large, ints and floats) and vectors given as Vec2/Vec3 or plain tuples. Oracle: '
         'after each assignment the property reads back the assigned value (2D rotation: value % 360.), exactly '
@@ -37,16 +37,20 @@ COMP = [0, 1, -2, 0.5, 3.25, -7.75, 100, 1e-3]
 
 def decode_op(t):
     sel, p = t
+    if sel >= 8:
+        # a listener subscribes to / unsubscribes from a transform in the middle of the history
+        return [p % 6, 'sub' if sel == 8 else 'unsub', 'listener', p // 6]
     return [p % 6, PROPS[sel % 3], 'aug' if sel >= 6 else ('tuple' if sel >= 3 else 'vec'), p // 6]
 
 
 def strategy():
-    op = st.tuples(st.integers(0, 7), st.integers(0, 6 * 16 ** 3 - 1)).map(decode_op)
+    op = st.tuples(st.integers(0, 9), st.integers(0, 6 * 16 ** 3 - 1)).map(decode_op)
     return st.fixed_dictionaries({
         'n2': st.integers(1, 3), 'n3': st.integers(1, 3),
         'ctor': st.lists(st.integers(0, 16 ** 3 * 2 - 1), min_size=6, max_size=6),
-        'listeners': st.lists(st.integers(1, 7 * 64 * 3 - 1).map(
-            lambda p: {'events': p % 7 + 1, 'on': p // 7 % 64 or 1, 'reactive': p // 448 == 2}),
+        'listeners': st.lists(st.integers(1, 7 * 64 * 3 * 2 - 1).map(
+            lambda p: {'events': p % 7 + 1, 'on': p // 7 % 64 or 1, 'reactive': p // 448 % 3 == 2,
+                       'renamed': p // 1344 == 1}),
                               min_size=1, max_size=4),
         'ops': worldops.chunked(op, 30)})
 
@@ -65,9 +69,11 @@ def run_case(case):
     log = []
     current = {'t': None, 'prop': None, 'nested': None, 'dim': 2}
 
-    def make_listener(ix, mask, reactive=False):
+    def make_listener(ix, mask, reactive=False, renamed=False):
         evs = [e for i, e in enumerate(EVENTS) if mask >> i & 1]
-        ns = {'__events__': {e: e for e in evs}}
+        # renamed: event_handler(on_position_change='moved')-style mapping, the callback is not named like the event
+        name = (lambda e: 'cb_' + e[3:]) if renamed else (lambda e: e)
+        ns = {'__events__': {e: name(e) for e in evs}}
         for e in evs:
             def cb(self, *a, _e=e):
                 # what does a read of the property return while the listeners are being told?
@@ -84,7 +90,7 @@ def run_case(case):
                         val = (dmath.Vec2 if dim == 2 else dmath.Vec3)(*([9, 8, 7][:dim]))
                     current['nested'] = (other, val)
                     setattr(t, other, val)
-            ns[e] = cb
+            ns[name(e)] = cb
         return type('Lst%d' % ix, (), ns)(), set(evs)
 
     transforms = []
@@ -109,10 +115,14 @@ def run_case(case):
         transforms.append((t, dim))
         expected.append(exp)
     listeners = []
+    listener_events = []
     subs = collections.defaultdict(set)      # (transform ix, event) -> listener ixs
     for li, spec in enumerate(case['listeners']):
-        lst, evs = make_listener(li, spec['events'], spec.get('reactive', False))
+        lst, evs = make_listener(li, spec['events'], spec.get('reactive', False), spec.get('renamed', False))
         listeners.append(lst)
+        listener_events.append(evs)
+        if spec.get('renamed'):
+            facts['listener_with_renamed_callbacks'] += 1
         on = [ti for ti in range(len(transforms)) if spec['on'] >> ti & 1] or [li % len(transforms)]
         for ti in on:
             transforms[ti][0].add_handler(lst)
@@ -142,6 +152,19 @@ def run_case(case):
         ti = tsel % len(transforms)
         t, dim = transforms[ti]
         del log[:]
+        if prop in ('sub', 'unsub'):
+            li = p % len(listeners)
+            current['t'] = None
+            try:
+                (t.add_handler if prop == 'sub' else t.remove_handler)(listeners[li])
+            except Exception as exc:
+                viol('subscribing_or_unsubscribing_a_listener_raised', exception=repr(exc))
+            for e in listener_events[li]:
+                (subs[(ti, e)].add if prop == 'sub' else subs[(ti, e)].discard)(li)
+            if log:
+                viol('callbacks_during_subscription', log=repr(log))
+            facts['listener_%sscribed_mid_history' % prop] += 1
+            continue
         current['t'], current['prop'], current['nested'], current['dim'] = t, prop, None, dim
         if prop == 'rotation' and dim == 2:
             value = ROT2[p % len(ROT2)]
